@@ -238,6 +238,11 @@ func (node *Node) ProcessBlock(ctx context.Context, block wire.Block) error {
 		}
 	}
 
+	// Tx states are updated below. Don't let the tx delay checker or the unconfirmed tx processor
+	// update a tx state in between.
+	node.txStateLock.Lock()
+	defer node.txStateLock.Unlock()
+
 	// Get unconfirmed "relevant" txs
 	var unconfirmed []bitcoin.Hash32
 	var err error
